@@ -562,21 +562,60 @@ UriBool URI_FUNC(CopyAuthority)(URI_TYPE(Uri) * dest,
 
 
 
-UriBool URI_FUNC(FixAmbiguity)(URI_TYPE(Uri) * uri,
+static UriBool URI_FUNC(ContainsColon)(const URI_TYPE(TextRange) * range) {
+	const URI_CHAR * ch = range->first;
+	for (; ch < range->afterLast; ch++) {
+		if (*ch == _UT(':')) {
+			return URI_TRUE;
+		}
+	}
+	return URI_FALSE;
+}
+
+
+
+UriBool URI_FUNC(FixAmbiguityEx)(URI_TYPE(Uri) * uri, UriBool pathOwned,
 		UriMemoryManager * memory) {
 	URI_TYPE(PathSegment) * segment;
 
-	if (	/* Case 1: absolute path, empty first segment */
-			(uri->absolutePath
-			&& (uri->pathHead != NULL)
-			&& (uri->pathHead->text.afterLast == uri->pathHead->text.first))
+	/* With a host in front, nothing in the path can be mistaken for anything else */
+	if (URI_FUNC(IsHostSet)(uri)) {
+		return URI_TRUE;
+	}
 
-			/* Case 2: relative path, empty first and second segment */
-			|| (!uri->absolutePath
+	/* A rootless path with an empty first segment reads "/..."; with a scheme
+	 * in front that is the very same text as the absolute path, so hold it as such */
+	if (!uri->absolutePath
+			&& (uri->scheme.first != NULL)
 			&& (uri->pathHead != NULL)
 			&& (uri->pathHead->next != NULL)
-			&& (uri->pathHead->text.afterLast == uri->pathHead->text.first)
-			&& (uri->pathHead->next->text.afterLast == uri->pathHead->next->text.first))) {
+			&& (uri->pathHead->text.afterLast == uri->pathHead->text.first)) {
+		segment = uri->pathHead;
+		uri->pathHead = segment->next;
+		memory->free(memory, segment);
+		uri->absolutePath = URI_TRUE;
+	}
+
+	URI_FUNC(FixEmptyTrailSegment)(uri, memory);
+
+	if (uri->pathHead == NULL) {
+		return URI_TRUE;
+	}
+
+	if (	/* Case 1: absolute path, empty first segment, would read "//..." */
+			(uri->absolutePath
+			&& (uri->pathHead->text.afterLast == uri->pathHead->text.first))
+
+			/* Case 2: relative-path reference, empty first segment, would read "/..." */
+			|| (!uri->absolutePath
+			&& (uri->scheme.first == NULL)
+			&& (uri->pathHead->next != NULL)
+			&& (uri->pathHead->text.afterLast == uri->pathHead->text.first))
+
+			/* Case 3: relative-path reference, colon in first segment, would read "scheme:..." */
+			|| (!uri->absolutePath
+			&& (uri->scheme.first == NULL)
+			&& URI_FUNC(ContainsColon)(&(uri->pathHead->text)))) {
 		/* NOOP */
 	} else {
 		return URI_TRUE;
@@ -588,11 +627,30 @@ UriBool URI_FUNC(FixAmbiguity)(URI_TYPE(Uri) * uri,
 	}
 
 	/* Insert "." segment in front */
+	if (pathOwned) {
+		URI_CHAR * const dot = memory->malloc(memory, 1 * sizeof(URI_CHAR));
+		if (dot == NULL) {
+			memory->free(memory, segment);
+			return URI_FALSE; /* Raises malloc error */
+		}
+		dot[0] = _UT('.');
+		segment->text.first = dot;
+		segment->text.afterLast = dot + 1;
+	} else {
+		segment->text.first = URI_FUNC(ConstPwd);
+		segment->text.afterLast = URI_FUNC(ConstPwd) + 1;
+	}
 	segment->next = uri->pathHead;
-	segment->text.first = URI_FUNC(ConstPwd);
-	segment->text.afterLast = URI_FUNC(ConstPwd) + 1;
+	segment->reserved = NULL;
 	uri->pathHead = segment;
 	return URI_TRUE;
+}
+
+
+
+UriBool URI_FUNC(FixAmbiguity)(URI_TYPE(Uri) * uri,
+		UriMemoryManager * memory) {
+	return URI_FUNC(FixAmbiguityEx)(uri, URI_FALSE, memory);
 }
 
 
@@ -600,8 +658,7 @@ UriBool URI_FUNC(FixAmbiguity)(URI_TYPE(Uri) * uri,
 void URI_FUNC(FixEmptyTrailSegment)(URI_TYPE(Uri) * uri,
 		UriMemoryManager * memory) {
 	/* Fix path if only one empty segment */
-	if (!uri->absolutePath
-			&& !URI_FUNC(IsHostSet)(uri)
+	if (!URI_FUNC(IsHostSet)(uri)
 			&& (uri->pathHead != NULL)
 			&& (uri->pathHead->next == NULL)
 			&& (uri->pathHead->text.first == uri->pathHead->text.afterLast)) {
